@@ -16,6 +16,8 @@ Decided on every CFG path:
   C29.capture       every stage invocation in the scheduler's item lambdas is inside a catch-all whose
                     handler records the exception in the task set, or the lambda is handed to the
                     ConcurrentTaskSet (whose packaged tasks do the same).
+  C29.drain-before-rethrow  generator Pipe::wait(): the downstream drain (which discards queued items
+                    when an exception is pending) runs before the task set's rethrowing wait().
 """
 import re
 from lib import typestate
@@ -129,3 +131,9 @@ def run(R):
                                 det = "lambda is handed to ConcurrentTaskSet::schedule (packaged tasks capture exceptions)"
                 R.ob("C29.capture", fn, ev, ok, det, sitekey="fPipe()", why="a throwing stage must end up in the task set's captured exception, not terminate the worker")
     R.need("C29.capture", n, 2, "stage invocations in LimitGatedScheduler item lambdas")
+
+    # the drain that discards queued items when an exception is pending must run before the
+    # (rethrowing) task-set wait of the generator pipe
+    from props import C27 as _c27
+    n = _c27.rethrow_last(R, "C29.drain-before-rethrow")
+    R.need("C29.drain-before-rethrow", n, 1, "generator Pipe::wait")
